@@ -6,6 +6,7 @@ import (
 	"encoding/binary"
 	"encoding/hex"
 	"encoding/pem"
+	"errors"
 	"fmt"
 	"sort"
 	"strings"
@@ -273,6 +274,13 @@ func SSH1PrivateKey(info Info, data []byte) (Info, error) {
 	info.Description = "SSH v1 key"
 
 	priv, comment, err := ssh1.ParsePrivateKey(data, []byte(""))
+	if errors.Is(err, ssh1.ErrCorrupted) && priv != nil && data[len(ssh1.Header)] != 0 {
+		// The private half is encrypted and no passphrase is available here; the public
+		// half (modulus, exponent, comment) is stored in the clear and has been read.
+		info.Description = "SSH v1 key (encrypted)"
+		info.Attributes = ssh1PublicKeyAttributes(priv.Public(), comment)
+		return info, nil
+	}
 	if err != nil {
 		return info, fmt.Errorf("ssh1.ParsePrivateKey: %w", err)
 	}
